@@ -222,7 +222,7 @@ class World:
         kind = op["op"]
         p = self.prog
         if kind == "register":
-            p.register(p.obj[op["ds"]], op["alias"], op["impl"])
+            p.register(p.obj[op["ds"]], op["alias"], op["impl"], cache_kind=p.node[op["ds"]].get("cache", "default"))
         elif kind == "set_dispatch":
             d = op["dispatch"]
             p.obj[op["ds"]].set_dispatch(p.obj[d["n"]] if isinstance(d, dict) else labrea.Option(d))
